@@ -37,7 +37,8 @@ Run(t, i, depth, prev, flow) ==
            ELSE IF ~(prev <= e.s) THEN [ok |-> FALSE, d |-> d2, at |-> i, why |-> "marks move backwards"]
            ELSE IF ~(PosOk(t, e.s, e.sl, e.sc) /\ PosOk(t, e.e, e.el, e.ec)) THEN [ok |-> FALSE, d |-> d2, at |-> i, why |-> "line/column"]
            ELSE IF e.chk /\ e.val # e.span THEN [ok |-> FALSE, d |-> d2, at |-> i, why |-> "text between marks"]
-           ELSE Run(t, i + 1, d2, e.s,
+           ELSE Run(t, i + 1, d2, IF e.e > prev THEN e.e ELSE prev,     \* "marks never move backwards": no token starts before an earlier one ended
+                    
                     CASE e.k \in {"FlowSequenceStart", "FlowMappingStart"} -> flow + 1
                       [] e.k \in {"FlowSequenceEnd", "FlowMappingEnd"} -> IF flow > 0 THEN flow - 1 ELSE 1000   \* stray close: flow context never ends
                       [] OTHER -> flow)
